@@ -90,6 +90,9 @@ func (sp *SAMLServiceProvider) validateLogoutResponseAttributes(response *types.
 
 func xmlUnmarshalElement(el *etree.Element, obj interface{}) error {
 	doc := etree.NewDocument()
+	// Serialize in canonical mode so that characters such as carriage returns are written as
+	// character references and survive the re-parse below.
+	doc.WriteSettings = etree.WriteSettings{CanonicalText: true, CanonicalAttrVal: true}
 	doc.SetRoot(el)
 	data, err := doc.WriteToBytes()
 	if err != nil {
